@@ -25,6 +25,12 @@ class Gram:
         for l, _ in prods:
             if l not in self.nts:
                 self.nts.append(l)
+        # production order = the order rustemo numbers them: rules in order, alternatives in order
+        order = sorted(range(len(prods)), key=lambda i: (self.nts.index(prods[i][0]), i))
+        if order != list(range(len(prods))):
+            remap = {old: new for new, old in enumerate(order)}
+            self.prods = prods = [prods[i] for i in order]
+            self.prod_meta = {remap[k]: v for k, v in self.prod_meta.items()}
         self.metas = metas or {}
         self._analyse()
 
@@ -137,11 +143,18 @@ class Gram:
         """some nonterminal derives the empty string in more than one way (grammar must be acyclic)."""
         toks = ()
         o = Oracle(self, toks)
-        return any(o.count(nt, 0, 0) > 1 for nt in self.nts if nt in self.nullable)
+        try:
+            return any(o.count(nt, 0, 0) > 1 for nt in self.nts if nt in self.nullable)
+        except CyclicGrammar:
+            return True
 
     def in_glr_scope(self):
         return (not self.undefined_symbols()) and self.all_productive() and not self.is_cyclic() \
             and not self.eps_ambiguous()
+
+
+class CyclicGrammar(Exception):
+    pass
 
 
 class Oracle:
@@ -153,9 +166,13 @@ class Oracle:
         self.cap = cap
         self._c = {}
         self._busy = set()
+        self._cs = {}
         self._t = {}
 
     def count(self, X, i, j):
+        """number of derivation trees of w[i:j] from X. Same-span dependencies (unit / nullable-context
+        chains) are followed only through non-zero factors, so for acyclic grammars no key is ever
+        re-entered; a re-entry means a cyclic derivation and raises CyclicGrammar."""
         g = self.g
         if X in g.terms:
             return 1 if j == i + 1 and self.w[i] == X else 0
@@ -165,12 +182,14 @@ class Oracle:
         if key in self._c:
             return self._c[key]
         if key in self._busy:
-            return 0  # only reachable through a cyclic derivation (out of scope)
+            raise CyclicGrammar(key)
         self._busy.add(key)
-        tot = 0
-        for _, rhs in g.by_lhs[X]:
-            tot += self.count_seq(tuple(rhs), i, j)
-        self._busy.discard(key)
+        try:
+            tot = 0
+            for _, rhs in g.by_lhs[X]:
+                tot += self.count_seq(tuple(rhs), i, j)
+        finally:
+            self._busy.discard(key)
         tot = min(tot, self.cap)
         self._c[key] = tot
         return tot
@@ -184,14 +203,24 @@ class Oracle:
             return 0
         if len(rhs) == 1:
             return self.count(rhs[0], i, j)
+        key = (rhs, i, j)
+        if key in self._cs:
+            return self._cs[key]
         tot = 0
         head, tail = rhs[0], rhs[1:]
         for k in range(i, j + 1):
-            t = self.count_seq(tail, k, j)
-            if t:
+            if k - i <= j - k:
+                # head has the smaller (or equal) span: evaluate it first
                 h = self.count(head, i, k)
-                tot += h * t
-        return min(tot, self.cap)
+                if h:
+                    tot += h * self.count_seq(tail, k, j)
+            else:
+                t = self.count_seq(tail, k, j)
+                if t:
+                    tot += self.count(head, i, k) * t
+        tot = min(tot, self.cap)
+        self._cs[key] = tot
+        return tot
 
     def sentence(self):
         return self.count(self.g.nts[0], 0, len(self.w)) > 0
